@@ -8,6 +8,25 @@ NOT_APPLICABLE = {("C%02d" % i): _PENDING for i in range(1, 21)}
 NODE_NOTE = ("Trusted: Coq kernel + vm_compute; simulator (scheduler/network re-implementation, state dump), boolean equalities; "
              "Not in the model: real sockets/timers/goroutine interleavings, I/O errors.")
 TEXT = {
+ "C06": {
+  "level": "Machine-checked proofs (Coq, no axioms) of the node-level rules that make an acknowledged entry durable on a majority of voters: "
+           "soundness of the leader's majority computation over the voters of the latest configuration (self counted iff voter), the invariant that "
+           "the cached voter count describes the latest configuration across all leader events, commit only beyond the term start and after "
+           "flushing, follower flush-before-success and the follower commit rule; plus (when Props/C06.v is present) the cluster-level theorem on "
+           "the abstract protocol that every committed entry is durably held by a majority. Tie: per-event differential execution; a monitor counts "
+           "durable copies at every commit advance of the simulated cluster.",
+  "design_ref": "DESIGN.md 5 (C06)", "note": NODE_NOTE,
+  "technique": "Coq proofs of commit/flush rules + leader-cache invariant; differential correspondence; durable-majority monitor",
+ },
+ "C08": {
+  "level": "Machine-checked proofs (Coq, no axioms): adjacency of every derived configuration and intersection of adjacent majorities; complete "
+           "validation of submitted configurations; actions only when the latest configuration and an own-term entry are committed and no transfer "
+           "runs (pre-repair guard refuted); follower adoption of the newest configuration entry. PARTIAL for the last clause of the property: the "
+           "derivation that configurations used by different leaders overlap (hence C01/C02 under reconfiguration) is not mechanised; the monitors "
+           "for C01/C02 run under membership-changing schedules instead.",
+  "design_ref": "DESIGN.md 5 (C08)", "note": NODE_NOTE,
+  "technique": "Coq proofs of reconfiguration rules + differential correspondence + targeted schedules (pending actions across leader change)",
+ },
  "C20": {
   "level": "Machine-checked proof (Coq, no axioms) on a small model of the identity handshake (getConn/replyRPC/handleConn), the lock file and "
            "SetIdentity: for every history in which the adversary decides which listener answers behind each address, requests are processed only by "
